@@ -1069,6 +1069,51 @@ mod conc {
         st.finished.store(true, Ordering::SeqCst);
     }
 
+    type Job = Box<dyn FnOnce() -> Result<usize, String> + Send + 'static>;
+
+    struct Executor {
+        jobs: std::sync::mpsc::Sender<Job>,
+        results: std::sync::mpsc::Receiver<Result<usize, String>>,
+    }
+
+    thread_local! {
+        static EXECUTOR: std::cell::RefCell<Option<Executor>> = const { std::cell::RefCell::new(None) };
+    }
+
+    /// Shuttle executions run on a helper OS thread owned by the calling engine thread. If the code under test
+    /// panics inside a shuttle task, shuttle abandons the half-unwound coroutines (`immediately_return_on_panic`;
+    /// without it a second panic in another task aborts the process), which leaves that OS thread's panic counter
+    /// raised for good: the helper is then thrown away and a fresh one is started for the next case.
+    fn run_on_executor(job: Job) -> Result<usize, String> {
+        EXECUTOR.with(|slot| {
+            let mut slot = slot.borrow_mut();
+            if slot.is_none() {
+                let (jobs, job_rx) = std::sync::mpsc::channel::<Job>();
+                let (res_tx, results) = std::sync::mpsc::channel();
+                std::thread::Builder::new()
+                    .name("c18-exec".into())
+                    .spawn(move || {
+                        for job in job_rx {
+                            if res_tx.send(job()).is_err() {
+                                break;
+                            }
+                        }
+                    })
+                    .expect("spawn executor thread");
+                *slot = Some(Executor { jobs, results });
+            }
+            let ex = slot.as_ref().unwrap();
+            let r = match ex.jobs.send(job) {
+                Ok(()) => ex.results.recv().unwrap_or_else(|_| Err("executor thread died".into())),
+                Err(_) => Err("executor thread died".into()),
+            };
+            if r.is_err() {
+                *slot = None;
+            }
+            r
+        })
+    }
+
     pub fn conc_case(c: &ConcCase) -> Report {
         let mut rep = Report::new();
         if c.users.is_empty() || c.users.iter().any(|u| u.iter().any(|o| matches!(o, COp::Refresh))) {
@@ -1077,15 +1122,20 @@ mod conc {
         }
         let st = Arc::new(ConcState::default());
         let stats = Arc::new(SchedStats::default());
-        let sched = ScriptSched::new(c.choices.clone(), stats.clone());
-        let mut cfg = shuttle::Config::new();
-        cfg.stack_size = 0x40000;
-        cfg.failure_persistence = shuttle::FailurePersistence::None;
-        cfg.max_steps = shuttle::MaxSteps::FailAfter(50_000);
-        cfg.silence_warnings = true;
-        let runner = shuttle::Runner::new(sched, cfg);
-        let (case, st2) = (Arc::new(c.clone()), st.clone());
-        let outcome = catch(move || runner.run(move || execution(&case, &st2)));
+        let (case, st2, stats2) = (Arc::new(c.clone()), st.clone(), stats.clone());
+        let outcome: Result<usize, String> = run_on_executor(Box::new(move || {
+            catch(move || {
+                let sched = ScriptSched::new(case.choices.clone(), stats2);
+                let mut cfg = shuttle::Config::new();
+                cfg.stack_size = 0x40000;
+                cfg.failure_persistence = shuttle::FailurePersistence::None;
+                cfg.max_steps = shuttle::MaxSteps::FailAfter(50_000);
+                cfg.silence_warnings = true;
+                cfg.ungraceful_shutdown_config.immediately_return_on_panic = true;
+                let runner = shuttle::Runner::new(sched, cfg);
+                runner.run(move || execution(&case, &st2))
+            })
+        }));
 
         let threads = 1 + c.users.len();
         rep.label(format!("conc:threads={threads}"));
@@ -1116,7 +1166,9 @@ mod conc {
                 rep.discard("step bound");
             }
             Err(msg) => {
-                let loc = msg.rsplit(" @ ").next().unwrap_or("").to_string();
+                // file name without the (target-dir dependent) directory
+                let loc = msg.rsplit(" @ ").next().unwrap_or("");
+                let loc = loc.rsplit('/').next().unwrap_or(loc).to_string();
                 rep.violation(format!("panic:{loc}"), format!("panic inside the schedule: {msg} | trace={trace}"));
             }
         }
